@@ -283,11 +283,13 @@ class Repo:
                 self.n_inlined += inline_helpers(tree, counts)
                 canonicalise_guards(tree)
                 canonicalise_quantifiers(tree)
-                canonicalise_negations(tree)
         for modname, path, rel, src, tree, is_pkg in parsed:
             if os.environ.get("AGILINT_CANON", "1") != "0":
                 canonicalise_comparisons(tree)
                 canonicalise_branches(tree)
+            if os.environ.get("AGILINT_INLINE", "1") != "0":
+                # after the branch orientation: `if not (a is None): X else: Y` must first become `if a is None: Y else: X`
+                canonicalise_negations(tree)
             mod = Mod(modname, path, rel, src, tree, is_pkg=is_pkg)
             self._index(mod)
             self.mods[modname] = mod
